@@ -119,6 +119,34 @@ CallTransformFails(ev) ==
   F("C02.suite_call_transform",
     Len(ev.out) = Len(ev.X) /\ AllFinM(ev.out) /\
     \A i \in 1..Len(ev.X) : ApproxV(ev.out[i], DH!Embed(ev.L, ev.X[i]), 2, 3, S))
+CallMatrixFails(ev) ==
+  LET MS == Sq(Sum1M(ev.L)) IN
+  F("C02.suite_call_get_mahalanobis_matrix",
+    AllFinM(ev.M) /\ ApproxM(ev.M, DH!MetricMatrix(ev.L), 2, 3, MS))
+(* triplets (a,b,c): decision = d(a,c) - d(a,b); quadruplets (a,b,c,d): decision = d(c,d) - d(a,b); predict = its sign *)
+(* (triplets: a tie predicts -1; quadruplets: a tie predicts 0).  Decided on squares, ties within 2^-30 follow the code. *)
+CallTuplesFails(ev) ==
+  LET n == Len(ev.tuples)
+      k == Len(ev.tuples[1])
+      pts == [i \in 1..(k * n) |-> ev.tuples[(i + k - 1) \div k][((i - 1) % k) + 1]]
+      S2 == Sq(ScaleOf(ev.L, pts))
+      p(i) == DH!SqDist(ev.L, ev.tuples[i][1], ev.tuples[i][2])
+      q(i) == IF k = 3 THEN DH!SqDist(ev.L, ev.tuples[i][1], ev.tuples[i][3])
+                       ELSE DH!SqDist(ev.L, ev.tuples[i][3], ev.tuples[i][4])
+      slack(v) == Add(Shift(v, -2), Shift(S2, -3))
+      closer(i)  == Lt(Add(p(i), slack(p(i))), q(i))        \* first pair clearly closer: positive
+      farther(i) == Lt(Add(q(i), slack(q(i))), p(i))
+      gap(i) == Abs(Sub(q(i), p(i)))
+  IN IF ev.method = "predict"
+     THEN F("C04.suite_call_tuples_predict",
+            Len(ev.out) = n /\ \A i \in 1..n :
+               /\ ev.out[i] \in (IF k = 3 THEN {-1, 1} ELSE {-1, 0, 1})
+               /\ (closer(i) => ev.out[i] = 1) /\ (farther(i) => ev.out[i] = -1))
+     ELSE F("C04.suite_call_tuples_decision",
+            Len(ev.out) = n /\ AllFinV(ev.out) /\ \A i \in 1..n :
+               /\ (closer(i) => IsPos(ev.out[i])) /\ (farther(i) => IsNeg(ev.out[i]))
+               \* |sqrt q - sqrt p|^2 <= |q - p|
+               /\ Leq(Sq(ev.out[i]), Add(gap(i), slack(gap(i)))))
 (* predict = +1 iff distance <= threshold_, decided on squares; a distance within 2^-30 of the threshold follows the code *)
 CallPredictFails(ev) ==
   LET n == Len(ev.pairs)
